@@ -4,6 +4,7 @@ CONSTANTS
   FocusGroups <- AllGroup
   Modes <- BothModes
   MaxWeight = 3
+  RouteWeight = 2
   MaxBuilds = 1
   KeyVariant = "ideal"
 VIEW GenView
